@@ -1359,8 +1359,13 @@ func driveC19(c *h.Ctx) error {
 		if err := json.Unmarshal(b, &cs); err != nil {
 			return fmt.Errorf("replay case: %v", err)
 		}
+		if cs.Kind == "late-registration" {
+			c19LateRegistration(c)
+			return c.WriteCases("cases_C19.v", "", 0)
+		}
 		cases = append(cases, cs)
 	} else {
+		c19LateRegistration(c)
 		maxLen := c.Pick(3, 4)
 		for _, kind := range []string{"client", "server", "item"} {
 			msgs := []int64{1}
